@@ -374,7 +374,7 @@ class Kernel:
     }
 
     def build_function(self, params: list[dict[str, Any]], is_async: bool, future: bool = True,
-                       local_names: bool = False) -> Any:
+                       local_names: bool = False, late: bool = False) -> Any:
         """params: name, kind (posonly|normal|kwonly), dflt (none|value|marker|uncalled), mname,
         annot (form or None), ty."""
         import asphalt.core as ac
@@ -403,7 +403,8 @@ class Kernel:
         sig = ", ".join(pos + (["/"] if pos else []) + normal + (["*"] if kwonly else []) + kwonly)
         src = f"{'async ' if is_async else ''}def fn({sig}):\n    return dict(locals())\n"
         # (with local_names the classes are NOT in the function's globals: only the decorating frame's locals have them)
-        ns: dict[str, Any] = {} if local_names else {f"T{i}": t for i, t in enumerate(TYPES)}
+        # (with late the classes are defined in the function's module only later: kernel.define_types(fn))
+        ns: dict[str, Any] = {} if local_names or late else {f"T{i}": t for i, t in enumerate(TYPES)}
         ns.update({"resource": ac.resource, "Optional": typing.Optional, "Union": typing.Union})
         # with / without `from __future__ import annotations` in the defining module: annotations are
         # all strings, or real objects that may still contain quoted forward references
@@ -469,9 +470,26 @@ class Kernel:
         elif "pair" in cmd and cmd["pair"] in self.pair_fns:
             fn = self.pair_fns[cmd["pair"]]     # the very same decorated function as the other call of the pair
         else:
-            fn = ac.inject(self.build_function(params, cmd["async"], cmd.get("future", True)))
+            late = bool(cmd.get("late")) and cmd.get("future", True) and bool(cmd["deps"])
+            raw = self.build_function(params, cmd["async"], cmd.get("future", True), late=late)
+            fn = ac.inject(raw)
             if "pair" in cmd:
                 self.pair_fns[cmd["pair"]] = fn
+            if late:
+                # the function is called once before the classes its (postponed) annotations name exist in its
+                # module - that call fails with NameError while resolving them, before anything is looked up -
+                # and again, below, once they do: the second call is an ordinary injected call
+                try:
+                    early = fn(*[object()] * sum(1 for p in params if p["kind"] == "normal" and p["dflt"] == "none"),
+                               **{p["name"]: object() for p in params if p["kind"] == "kwonly" and p["dflt"] == "none"})
+                    if cmd["async"]:
+                        early = await early
+                    return [f"EARLY-CALL-BAD returned {early!r}"]
+                except NameError:
+                    pass
+                except Exception as e:  # noqa: BLE001
+                    return [f"EARLY-CALL-BAD raised {type(e).__name__}"]
+                raw.__globals__.update({f"T{i}": t for i, t in enumerate(TYPES)})
         sentinels = {o["name"]: object() for o in cmd["others"] if not o["has_default"] or o.get("pass")}
         args = [sentinels[p["name"]] for p in params if p["kind"] == "normal" and p["name"] in sentinels
                 and p["dflt"] == "none"]
